@@ -228,6 +228,8 @@ func (c Dirs) Files(s Src) map[string]string {
 	fmt.Fprintf(&b, "filegroup(name=\"ff\", srcs=[\"f.txt\"], visibility=[\"PUBLIC\"])\n")
 	fmt.Fprintf(&b, "genrule(name=\"h\", srcs=[\":ff\"], outs=[\"h.out\"], cmd=%q)\n", fmt.Sprintf(logPfx, "//p:h")+catCmd)
 	// a declared output that is itself a symlink (lib.so -> lib.so.1): its recorded rule hash lives in a side file, not in an xattr
+	// outputs known only after the build (output_dirs): the list of outputs is kept in the target's metadata file
+	fmt.Fprintf(&b, "genrule(name=\"od\", srcs=[\"d.txt\"], output_dirs=[\"_o\"], cmd=%q)\n", fmt.Sprintf(logPfx, "//p:od")+"mkdir _o; read -r x < $SRCS; echo $x > _o/od1.txt; echo $x$x > _o/od2.txt; echo $x$x$x > _o/od3.txt")
 	// two regular output files (each carries the recorded hashes; a cache restore links them one after the other)
 	fmt.Fprintf(&b, "genrule(name=\"m\", srcs=[\"d.txt\"], outs=[\"m1.out\", \"m2.out\"], cmd=%q)\n", fmt.Sprintf(logPfx, "//p:m")+"read -r x < $SRCS; echo $x > m1.out; echo $x$x > m2.out")
 	fmt.Fprintf(&b, "genrule(name=\"k\", srcs=[\"d.txt\"], outs=[\"k.txt\", \"k.lnk\"], cmd=%q)\n", fmt.Sprintf(logPfx, "//p:k")+"read -r x < $SRCS; echo $x > k.txt; ln -s k.txt k.lnk")
@@ -255,6 +257,7 @@ func (c Dirs) Targets(s Src) []Target {
 		{"//p:h", []string{"plz-out/gen/p/h.out"}},
 		{"//p:k", []string{"plz-out/gen/p/k.txt", "plz-out/gen/p/k.lnk"}},
 		{"//p:m", []string{"plz-out/gen/p/m1.out", "plz-out/gen/p/m2.out"}},
+		{"//p:od", []string{"plz-out/gen/p/od1.txt", "plz-out/gen/p/od2.txt", "plz-out/gen/p/od3.txt"}},
 		{"//p2:ff2", []string{"plz-out/gen/p2/f.txt"}},
 		{"//p2:h2", []string{"plz-out/gen/p2/h2.out"}},
 	}
@@ -272,7 +275,7 @@ func (c Dirs) Sigs(s Src, clean *Obs) map[string]string {
 	files := c.Files(s)
 	defs := map[string]string{}
 	for _, l := range strings.Split(files["p/BUILD"], "\n") {
-		for _, n := range []string{"d", "e", "fg", "t", "g", "ff", "h", "k", "m"} {
+		for _, n := range []string{"d", "e", "fg", "t", "g", "ff", "h", "k", "m", "od"} {
 			if strings.Contains(l, "name=\""+n+"\"") {
 				defs["//p:"+n] = l
 			}
@@ -285,6 +288,7 @@ func (c Dirs) Sigs(s Src, clean *Obs) map[string]string {
 		"//p:h":   defs["//p:h"] + "|" + clean.Outs["//p:ff"],
 		"//p:k":   defs["//p:k"] + "|" + files["p/d.txt"],
 		"//p:m":   defs["//p:m"] + "|" + files["p/d.txt"],
+		"//p:od":  defs["//p:od"] + "|" + files["p/d.txt"],
 		"//p2:h2": files["p2/BUILD"] + "|" + clean.Outs["//p2:ff2"],
 	}
 }
